@@ -500,6 +500,11 @@ func cmdCheck(args []string) int {
 	}
 
 	// ---- translator validation
+	symViol := map[string]bool{} // harness|kind with a symbolic violation
+	for _, vr := range vrefs {
+		symViol[vr.h.Name+"|"+vr.v.Kind] = true
+	}
+	seedFail := map[string]int{} // harness|kind -> witness index of a natively failing seed
 	validated, disagreements, seedsOK := 0, 0, 0
 	nativeReached := map[string]map[string]bool{}
 	var disagreeMsgs []string
@@ -508,6 +513,14 @@ func cmdCheck(args []string) int {
 		o := outs[pr.pkg][pr.idx]
 		wk := perPkg[pr.pkg][pr.idx].Kind
 		if wk == "seed" {
+			if (o.Outcome == "assert" || o.Outcome == "panic") && symViol[pr.h.Name+"|"+o.Outcome] {
+				// the symbolic run reports a violation of this kind on this harness and the
+				// hand-written input shows one on the real build: that is the
+				// reproduction (used when the solver's own models run through
+				// uninterpreted values and need not be real executions)
+				seedFail[pr.h.Name+"|"+o.Outcome] = pr.idx
+				continue
+			}
 			if o.Outcome != "ok" {
 				disagreements++
 				disagreeMsgs = append(disagreeMsgs, fmt.Sprintf("%s seed %v: native %s %q", pr.h.Name, perPkg[pr.pkg][pr.idx].Inputs, o.Outcome, o.Msg))
@@ -592,6 +605,15 @@ func cmdCheck(args []string) int {
 			// a write into caller-owned memory is visible natively only through
 			// the harness' own re-read assertions; report the symbolic finding
 			repro = true
+		}
+		if !repro && vr.v.UsedUF {
+			if si, ok := seedFail[vr.h.Name+"|"+vr.v.Kind]; ok {
+				so := outs[vr.pkg][si]
+				if vr.v.Kind != "assert" || so.Msg == vr.v.Label {
+					repro, o = true, so
+					vr.idx = si
+				}
+			}
 		}
 		if !repro {
 			spurious++
